@@ -383,8 +383,11 @@ func minimise(t *testing.T, prop, tier string, seed uint64, params map[string]st
 		return ReplayFile{Property: v.Property, Tier: tier, Seed: seed, Params: params, Vector: nil, Violation: v, Trace: rc.Trace, OrigLen: orig,
 			Note: "the recorded choice vector did not reproduce in-process; replay is by seed"}
 	}
-	for chunk := len(best) / 2; chunk >= 1; chunk /= 2 {
-		for i := 0; i+chunk <= len(best); {
+	// Once the budget is spent no candidate is tried any more: leave the loops (a free-running run's vector has
+	// hundreds of thousands of entries; walking it entry by entry for nothing took a worker ten minutes).
+	spent := func() bool { return tries >= maxTries || time.Now().After(deadline) }
+	for chunk := len(best) / 2; chunk >= 1 && !spent(); chunk /= 2 {
+		for i := 0; i+chunk <= len(best) && !spent(); {
 			cand := append(append([]uint32{}, best[:i]...), best[i+chunk:]...)
 			if r, ok := same(cand); ok {
 				best = append([]uint32{}, r.Ch.Vector...)
@@ -397,8 +400,8 @@ func minimise(t *testing.T, prop, tier string, seed uint64, params map[string]st
 			}
 		}
 	}
-	for pass := 0; pass < 2; pass++ {
-		for i := 0; i < len(best); i++ {
+	for pass := 0; pass < 2 && !spent(); pass++ {
+		for i := 0; i < len(best) && !spent(); i++ {
 			if best[i] == 0 {
 				continue
 			}
